@@ -5,11 +5,23 @@
 // read/write), close()/send/receive on c.channel and c.done, select boundaries,
 // returns, verifYield points. The property file requires these sequences to be
 // exactly the ones Model.Chan's steps stand for.
+//
+// Beyond `Channel` itself it covers EVERY file of std/channel (the class / dispatch layer a script
+// call goes through before it reaches `Channel`): every type declared in the package with its
+// fields, every statement of every function that writes state which is not a plain local variable
+// (assignment / ++ / -- through a selector, an index, a pointer or to a package-level variable;
+// delete / clear / copy), every package-level variable and every `go` statement. The property file
+// requires the dispatch layer to be write-free after construction: its objects hold nothing but
+// references to the channel / the class object, the only writes in the package are the two
+// `Construct` performs inside the exclusive lock, there is no package-level state apart from the
+// verif hook, and nothing starts a goroutine.
 package main
 
 import (
+	"bytes"
 	"fmt"
 	"go/ast"
+	"go/printer"
 	"go/token"
 	"os"
 	"sort"
@@ -492,6 +504,159 @@ func main() {
 	for _, n := range wnames {
 		wl = append(wl, fmt.Sprintf("(%s, [%s])", ex.LeanString(n), quoteAll(wrappers[n])))
 	}
+	// ---- the whole package: types and their fields, writes of non-local state, package variables, go statements
+	fset := token.NewFileSet()
+	exprStr := func(e ast.Expr) string {
+		var b bytes.Buffer
+		printer.Fprint(&b, fset, e)
+		return strings.Join(strings.Fields(b.String()), " ")
+	}
+	pkgVar := map[string]bool{}
+	var pkgVars, goStmts, sharedWrites []string
+	type structFact struct {
+		name   string
+		fields [][2]string
+	}
+	var structs []structFact
+	for _, fn := range fileNames {
+		for _, d := range files[fn].Decls {
+			gd, ok := d.(*ast.GenDecl)
+			if !ok {
+				continue
+			}
+			for _, sp := range gd.Specs {
+				switch x := sp.(type) {
+				case *ast.ValueSpec:
+					if gd.Tok == token.VAR {
+						for _, nm := range x.Names {
+							pkgVar[nm.Name] = true
+							pkgVars = append(pkgVars, nm.Name)
+						}
+					}
+				case *ast.TypeSpec:
+					if x.Name.Name == "Channel" {
+						continue // its fields are the `fields` / `extraFields` facts above
+					}
+					sf := structFact{name: x.Name.Name}
+					if st, ok := x.Type.(*ast.StructType); ok {
+						for _, fl := range st.Fields.List {
+							if len(fl.Names) == 0 {
+								sf.fields = append(sf.fields, [2]string{"", exprStr(fl.Type)})
+							}
+							for _, nm := range fl.Names {
+								sf.fields = append(sf.fields, [2]string{nm.Name, exprStr(fl.Type)})
+							}
+						}
+					} else {
+						sf.fields = append(sf.fields, [2]string{"<underlying>", exprStr(x.Type)})
+					}
+					structs = append(structs, sf)
+				}
+			}
+		}
+	}
+	sort.Strings(pkgVars)
+	sort.Slice(structs, func(i, j int) bool { return structs[i].name < structs[j].name })
+	for _, fn := range fileNames {
+		for _, d := range files[fn].Decls {
+			fd, ok := d.(*ast.FuncDecl)
+			if !ok || fd.Body == nil {
+				continue
+			}
+			fname := fd.Name.Name
+			if fd.Recv != nil && len(fd.Recv.List) > 0 {
+				fname = strings.TrimPrefix(ex.TypeString(fd.Recv.List[0].Type), "*") + "." + fname
+			}
+			// names declared inside the function shadow package-level variables
+			local := map[string]bool{}
+			if fd.Type.Params != nil {
+				for _, p := range fd.Type.Params.List {
+					for _, nm := range p.Names {
+						local[nm.Name] = true
+					}
+				}
+			}
+			ast.Inspect(fd.Body, func(n ast.Node) bool {
+				switch x := n.(type) {
+				case *ast.AssignStmt:
+					if x.Tok == token.DEFINE {
+						for _, l := range x.Lhs {
+							if id, ok := l.(*ast.Ident); ok {
+								local[id.Name] = true
+							}
+						}
+					}
+				case *ast.ValueSpec:
+					for _, nm := range x.Names {
+						local[nm.Name] = true
+					}
+				}
+				return true
+			})
+			target := func(e ast.Expr) (string, bool) {
+				for {
+					if p, ok := e.(*ast.ParenExpr); ok {
+						e = p.X
+						continue
+					}
+					break
+				}
+				switch x := e.(type) {
+				case *ast.Ident:
+					if x.Name != "_" && pkgVar[x.Name] && !local[x.Name] {
+						return x.Name, true
+					}
+					return "", false
+				case *ast.SelectorExpr, *ast.IndexExpr, *ast.StarExpr:
+					return exprStr(x), true
+				}
+				return "", false
+			}
+			ast.Inspect(fd.Body, func(n ast.Node) bool {
+				switch x := n.(type) {
+				case *ast.AssignStmt:
+					for _, l := range x.Lhs {
+						if t, ok := target(l); ok {
+							sharedWrites = append(sharedWrites, fname+":"+t)
+						}
+					}
+				case *ast.IncDecStmt:
+					if t, ok := target(x.X); ok {
+						sharedWrites = append(sharedWrites, fname+":"+t)
+					}
+				case *ast.RangeStmt:
+					if x.Tok == token.ASSIGN {
+						for _, l := range []ast.Expr{x.Key, x.Value} {
+							if l == nil {
+								continue
+							}
+							if t, ok := target(l); ok {
+								sharedWrites = append(sharedWrites, fname+":"+t)
+							}
+						}
+					}
+				case *ast.CallExpr:
+					if id, ok := x.Fun.(*ast.Ident); ok && len(x.Args) > 0 {
+						switch id.Name {
+						case "delete", "clear", "copy":
+							sharedWrites = append(sharedWrites, fname+":"+id.Name+"("+exprStr(x.Args[0])+")")
+						}
+					}
+				case *ast.GoStmt:
+					goStmts = append(goStmts, fname)
+				}
+				return true
+			})
+		}
+	}
+	var sl []string
+	for _, sf := range structs {
+		var fl []string
+		for _, f := range sf.fields {
+			fl = append(fl, fmt.Sprintf("(%s, %s)", ex.LeanString(f[0]), ex.LeanString(f[1])))
+		}
+		sl = append(sl, fmt.Sprintf("(%s, [%s])", ex.LeanString(sf.name), strings.Join(fl, ", ")))
+	}
 	var sb strings.Builder
 	sb.WriteString("import Model.Chan\n/-! Sync-relevant events of the methods of `Channel` (std/channel), in source order. -/\nnamespace Generated.C09ChanLocks\nopen Model.Chan\n\n")
 	fmt.Fprintf(&sb, "/-- types of the fields mu, closed, done, channel -/\ndef fields : List FieldTy := %s\n\n", leanList([]string{fieldTy(fields["mu"]), fieldTy(fields["closed"]), fieldTy(fields["done"]), fieldTy(fields["channel"])}, "."))
@@ -501,13 +666,17 @@ func main() {
 	}
 	fmt.Fprintf(&sb, "/-- sync-relevant events in any other method of Channel (method:event) -/\ndef others : List String := [%s]\n\n", quoteAll(others))
 	fmt.Fprintf(&sb, "/-- per script-level method object (channel_methods.go): the Channel methods its Call invokes, in source order -/\ndef wrappers : List (String × List String) := [%s]\n\n", strings.Join(wl, ", "))
+	fmt.Fprintf(&sb, "/-- every type declared in std/channel except Channel: (type, [(field, type as written)]) -/\ndef dispatchTypes : List (String × List (String × String)) := [%s]\n\n", strings.Join(sl, ", "))
+	fmt.Fprintf(&sb, "/-- every statement in any function of std/channel that writes state other than a plain local variable (function:target, file and source order) -/\ndef sharedWrites : List String := [%s]\n\n", quoteAll(sharedWrites))
+	fmt.Fprintf(&sb, "/-- package-level variables of std/channel (all build tags) -/\ndef pkgVars : List String := [%s]\n\n", quoteAll(pkgVars))
+	fmt.Fprintf(&sb, "/-- functions of std/channel that contain a go statement -/\ndef goStmts : List String := [%s]\n\n", quoteAll(goStmts))
 	fmt.Fprintf(&sb, "def shapeChanged : List String := [%s]\n\nend Generated.C09ChanLocks\n", quoteAll(shape))
 	if err := ex.WriteIfChanged(a.Out, "C09ChanLocks.lean", sb.String()); err != nil {
 		fmt.Fprintln(os.Stderr, "c09 extract:", err)
 		os.Exit(1)
 	}
-	fmt.Printf("C09ChanLocks: Send=%d Close=%d Receive=%d IsClosed=%d Construct=%d events, others=%d, shapeChanged=%d\n",
-		len(methods["Send"]), len(methods["Close"]), len(methods["Receive"]), len(methods["IsClosed"]), len(methods["Construct"]), len(others), len(shape))
+	fmt.Printf("C09ChanLocks: Send=%d Close=%d Receive=%d IsClosed=%d Construct=%d events, others=%d, dispatch types=%d, writes of non-local state=%d, package vars=%d, go statements=%d, shapeChanged=%d\n",
+		len(methods["Send"]), len(methods["Close"]), len(methods["Receive"]), len(methods["IsClosed"]), len(methods["Construct"]), len(others), len(structs), len(sharedWrites), len(pkgVars), len(goStmts), len(shape))
 }
 
 func quoteAll(xs []string) string {
